@@ -24,6 +24,7 @@ import os
 import shutil
 import subprocess
 import time
+from pathlib import Path
 
 from .. import core, fstrace
 from ..core import Result
@@ -367,6 +368,42 @@ def _mixture_probe(ctx, res, thorough):
             res.fail("concurrent-writers:entry-is-a-mixture-of-results", case, out)
 
 
+FORK = str(Path(__file__).resolve().parent.parent / "c11_fork.py")
+
+
+def _fork_probe(ctx, res, thorough):
+    """Forked writers of one entry (processes that share everything the parent had at the fork, including whatever joblib
+    remembers about "this writer"): forced interleaving open(B's temporary) / rename(A's temporary) / read, see
+    harness/c11_fork.py.  Behavioural oracle only."""
+    env = dict(os.environ, PYTHONPATH=str(core.REPO))
+    confs = [(True, False), (True, True), (False, False)]
+    if thorough:
+        confs += [(True, False), (False, True), (True, True)]
+    for k, (parent_first, compress) in enumerate(confs):
+        d = os.path.join(str(ctx.scratch), f"fork{k}")
+        os.makedirs(os.path.join(d, "mod"), exist_ok=True)
+        with open(os.path.join(d, "mod", "wl_fork.py"), "w") as f:
+            f.write("def f(x):\n    return ['tag-%d' % x] * 20000\n")
+        spec = dict(cache=os.path.join(d, "cache"), moddir=os.path.join(d, "mod"), parent_writes_first=parent_first, compress=compress)
+        case = dict(kind="fork-probe", parent_writes_first=parent_first, compress=compress)
+        try:
+            p = subprocess.run([core.PY, "-B", FORK, json.dumps(spec)], env=env, capture_output=True, text=True, timeout=120)
+            out = json.loads(p.stdout.strip().splitlines()[-1])
+        except (subprocess.TimeoutExpired, ValueError, IndexError) as e:
+            res.fail("fork-probe:did-not-finish", case, repr(e)[:300])
+            continue
+        res.evaluations += 1
+        res.count("fork-probe-runs")
+        if out.get("inconclusive"):
+            res.count("fork-probe-inconclusive")
+            res.notes.append(f"fork probe inconclusive: {out['inconclusive']}")
+        else:
+            res.nontrivial.add(("fork", parent_first, compress))
+        if out["errors"]:
+            who, what = out["errors"][0][:2]
+            res.fail("concurrent-writers:forked:" + what, case, out)
+
+
 def _explore(ctx, scale=1):
     res = Result()
     res.rule = ("one case = (scenario, schedule); schedules: single pre-emption at every tracked line of a participant "
@@ -398,14 +435,15 @@ def _explore(ctx, scale=1):
     jobs = []
     with cf.ProcessPoolExecutor(max_workers=min(16, os.cpu_count() or 4)) as ex:
         dry_out = list(ex.map(_run_schedule, dry, chunksize=1))
-        steps, traces = {}, {}
+        steps, traces, fs_steps = {}, {}, {}
         for rec in dry_out:
             if rec.get("res") is None:
                 raise core.InfraError(f"C11 dry run failed: {rec['name']} rc={rec['rc']} {rec['err']}")
             steps[rec["name"]] = rec["res"]["steps"]
             traces[rec["name"]] = rec["res"].get("trace") or []
+            fs_steps[rec["name"]] = rec["res"].get("fs_steps") or []
         # sweeps: participant t pre-empted at step n by participant u (who then runs to completion)
-        per = 400 if thorough else 22
+        per = 400 if thorough else 6
         for name, sc in SCENARIOS.items():
             if name == "mix4":
                 continue
@@ -425,11 +463,21 @@ def _explore(ctx, scale=1):
                 tr = traces.get(name) or []
                 dense = [k + 1 for k, (fn, co) in enumerate(tr[t] if t < len(tr) else [])
                          if fn in REMOVAL_FILES or co in REMOVAL_FUNCS]
-                cap = 400 if thorough else 40
+                cap = 400 if thorough else 16
                 if len(dense) > cap:
                     stride = -(-len(dense) // cap)
                     dense = dense[rng.randrange(stride)::stride]
-                for n in sorted(set(pts) | set(dense)):
+                # every tracked line at which the participant issues a file-system call (recorded by the dry run): a single
+                # pre-emption at each of them enumerates the two-party interleavings at file-system-call granularity —
+                # complete also in the quick tier (a creator pre-empted inside os.makedirs by a remover, a reader between
+                # its existence test and its open, ...)
+                fsp = list((fs_steps.get(name) or [[]] * n_parts)[t]) if t < len(fs_steps.get(name) or []) else []
+                capf = 2000 if thorough else 90
+                if len(fsp) > capf:
+                    stride = -(-len(fsp) // capf)
+                    fsp = fsp[rng.randrange(stride)::stride]
+                res.count("fs-call-preemption-points", len(fsp))
+                for n in sorted(set(pts) | set(dense) | set(fsp)):
                     jobs.append((base, name, pre[name], ids, dict(mode="switch", points=[[t, n, u]]), f"sw{t}-{n}", False))
         for key, (name, script) in SCRIPTS.items():
             jobs.append((base, name, pre[name], ids, dict(mode="lines", script=script), "script-" + key, False))
@@ -466,6 +514,7 @@ def _explore(ctx, scale=1):
         for (rec, name), rep in zip(pend, ctx.driver().run(reqs)):
             _compare(res, rec, name, rep)
     _mixture_probe(ctx, res, thorough)
+    _fork_probe(ctx, res, thorough)
     if thorough:
         _stress(ctx, res, base, ids)
     res.assumptions = ["threads of one process stand for processes (own function object, Memory object, temporary suffix)",
